@@ -168,7 +168,7 @@ Lemma mM_msg : multi_msg c0 mM.
 Proof.
   split; [by_compute|]. split; [vm_compute; discriminate|].
   unfold multi_dest_guards, delivered_shape.
-  split; [split; [reflexivity|split; [by_compute|split; [reflexivity|discriminate]]]|].
+  split; [split; [by_compute|split; [by_compute|split; [by_compute|intros H; vm_compute in H; discriminate H]]]|].
   split; [vm_compute; discriminate|]. split; [vm_compute; discriminate|]. split; [vm_compute; discriminate|].
   split; [vm_compute; discriminate|]. split; [vm_compute; discriminate|].
   change (multi_dst_triples (mmsg_input c0 mM)) with (mmsg_triples c0 mM). rewrite mM_triples.
@@ -186,7 +186,7 @@ Proof.
   - by_compute.
   - exact mM_msg.
   - by_compute.
-  - rewrite mM_triples, mM_shd. apply (dest_ready_distinct (env_at c0 1) c0_ok).
+  - rewrite mM_triples, mM_shd. apply (dest_ready_distinct (env_at c0 1)).
     + exact cells_distinct.
     + intros _ _. discriminate.
     + constructor; [|constructor; [|constructor]].
@@ -232,7 +232,7 @@ Proof.
   - by_compute.
   - by_compute.
   - rejected.
-  - rewrite mM_triples, mM_shs. apply (dest_ready_distinct (env_at c0 0) c0_ok).
+  - rewrite mM_triples, mM_shs. apply (dest_ready_distinct (env_at c0 0)).
     + exact cells_distinct.
     + intros H. discriminate H.
     + constructor; [|constructor; [|constructor]].
